@@ -72,7 +72,7 @@ def base_cfg(system):
     else:
         cfg['schedule'] = {'kind': 'iso', 'T': 450.0}
         cfg['segments'] = [2e3, 2e4]
-    cfg['max_steps'] = 400
+    cfg['max_steps'] = 200
     return cfg
 
 
